@@ -93,6 +93,8 @@ def same(got, exp):
             return "type %s instead of DataFrame" % type(got).__name__
         if sorted(map(str, got.columns)) != sorted(map(str, exp.columns)):
             return "columns %s vs %s" % (list(got.columns), list(exp.columns))
+        if len(got) != len(exp):
+            return "%d rows vs %d rows" % (len(got), len(exp))
         for c in exp.columns:
             r = same(got[c], exp[c])
             if r:
